@@ -34,7 +34,6 @@
 """
 import glob
 import os
-import threading
 
 from .. import common, corpus
 
@@ -252,15 +251,15 @@ def _observe(args):
     tmul = args[5] if len(args) > 5 else 1
     base = os.path.join(workdir, os.path.basename(src)[:-5])
     res = {"src": src}
-    res["run"] = common.run([virt_exe, src, "--run"], timeout=60 * tmul, cwd=tree_root)
-    rc, o, e = common.run([virt_exe, src, "--emit-nvm", "-o", base + ".nvm"], timeout=60 * tmul, cwd=tree_root)
+    res["run"] = common.run([virt_exe, src, "--run"], timeout=40 * tmul, cwd=tree_root)
+    rc, o, e = common.run([virt_exe, src, "--emit-nvm", "-o", base + ".nvm"], timeout=40 * tmul, cwd=tree_root)
     res["emit"] = (rc, o, e)
     if rc == 0:
-        res["file"] = common.run([vm_exe, base + ".nvm"], timeout=60 * tmul, cwd=tree_root)
-    rc, o, e = common.run([virt_exe, src, "-o", base + ".w"], timeout=180 * tmul, cwd=tree_root)
+        res["file"] = common.run([vm_exe, base + ".nvm"], timeout=40 * tmul, cwd=tree_root)
+    rc, o, e = common.run([virt_exe, src, "-o", base + ".w"], timeout=120 * tmul, cwd=tree_root)
     res["wrapbuild"] = (rc, o, e)
     if rc == 0 and os.path.exists(base + ".w"):
-        res["wrap"] = common.run([base + ".w"], timeout=60 * tmul, cwd=tree_root)
+        res["wrap"] = common.run([base + ".w"], timeout=40 * tmul, cwd=tree_root)
         os.unlink(base + ".w")
     res["nvm"] = base + ".nvm"
     return res
@@ -333,47 +332,58 @@ def run_generated(rep, plain, work, family, progs, tmul=1):
     groups = {}
     out = []
     for (name, text, meta), job, r in zip(progs, jobs, results):
-        r["name"], r["meta"], r["text"] = name, meta, text
+        r["name"], r["meta"], r["text"], r["job"] = name, meta, text, job
+        out.append(r)
         if r["emit"][0] != 0 or "file" not in r:
             r["refused"] = True
             rep.count("generated_programs_refused_by_front_end")
-            out.append(r)
             continue
         norm = three_ways(r)
-        timed_out = any(v[0] == "timeout" for v in norm.values()) or r["wrapbuild"][0] == "timeout"
-        sig = disagreement(norm)
-        if sig or timed_out:
-            # alone, with ten times the limits; a verdict needs the same disagreement twice in a row
-            again = []
-            for _ in range(2):
-                r2 = _observe(job[:5] + (tmul * 10,))
-                if r2["emit"][0] != 0 or "file" not in r2:
-                    raise common.HarnessError("%s compiled in the pool and not alone: %s" % (name, r2["emit"][2][-300:]))
-                again.append(disagreement(three_ways(r2)))
-                norm2 = three_ways(r2)
-            if again[0] != again[1]:
-                raise common.HarnessError("%s: unstable observation: %r then %r then %r" % (name, sig, again[0], again[1]))
-            sig, norm = again[1], norm2
-            r.update({k: r2[k] for k in ("run", "file", "wrap", "wrapbuild") if k in r2})
-            if not sig:
-                rep.count("disagreements_not_reproduced_alone")
         r["norm"] = norm
         rep.count("traces_validated_against_impl", len(norm))
         rep.count("transitions", len(norm))
+        sig = disagreement(norm)
+        if any(v[0] == "timeout" for v in norm.values()) or r["wrapbuild"][0] == "timeout":
+            sig = "timeout in the pool; " + sig
         if sig:
-            groups.setdefault(sig, []).append((name, text, norm))
-        out.append(r)
+            groups.setdefault(sig, []).append(r)
     for sig, members in sorted(groups.items()):
-        files = {"members.txt": "".join("%s\n" % m[0] for m in members)}
-        name, text, norm = members[0]
-        files["program.nano"] = text
-        files["observations.txt"] = describe(norm)
-        for name2, text2, norm2 in members[1:4]:
-            files["more_%s.nano" % name2] = text2
-            files["more_%s.observations.txt" % name2] = describe(norm2)
-        rep.violation("c10-%s:%s" % (family, sig), files,
-                      "%s: %d generated program(s), e.g. %s: %s  %s" % (family, len(members), name, sig,
-                                                                          {k: (v[0], "/".join(v[2])) for k, v in norm.items()}), REPLAY_SH)
+        # A verdict needs the same disagreement twice in a row from the program run ALONE (ten times the time limit
+        # after a timeout).  Members of one signature group are re-run until two are confirmed (one after a timeout);
+        # the others are listed as members of the confirmed group.
+        slow = sig.startswith("timeout")
+        confirmed = []
+        for r in members[:6]:
+            sigs = []
+            for _ in range(2):
+                r2 = _observe(r["job"][:5] + (tmul * (10 if slow else 2),))
+                if r2["emit"][0] != 0 or "file" not in r2:
+                    raise common.HarnessError("%s compiled in the pool and not alone: %s" % (r["name"], r2["emit"][2][-300:]))
+                n2 = three_ways(r2)
+                sigs.append(disagreement(n2))
+            if sigs[0] != sigs[1]:
+                raise common.HarnessError("%s: unstable observation: %r in the pool, then %r, then %r alone" % (r["name"], sig, sigs[0], sigs[1]))
+            if not sigs[1]:
+                rep.count("disagreements_not_reproduced_alone")
+                r["norm"] = n2
+                continue
+            r["norm"] = n2
+            confirmed.append((r, sigs[1]))
+            if len(confirmed) >= (1 if slow else 2):
+                break
+        if not confirmed:
+            if len(members) > 6:
+                raise common.HarnessError("%s: %d programs disagreed in the pool (%s), none of the first 6 does alone" % (family, len(members), sig))
+            continue
+        r, sig2 = confirmed[0]
+        files = {"members.txt": "".join("%s%s\n" % (m["name"], "  (confirmed alone, twice)" if any(m is c[0] for c in confirmed) else "") for m in members),
+                 "program.nano": r["text"], "observations.txt": describe(r["norm"])}
+        for r3, _s in confirmed[1:]:
+            files["more_%s.nano" % r3["name"]] = r3["text"]
+            files["more_%s.observations.txt" % r3["name"]] = describe(r3["norm"])
+        rep.violation("c10-%s:%s" % (family, sig2), files,
+                      "%s: %d generated program(s), e.g. %s: %s  %s" % (family, len(members), r["name"], sig2,
+                                                                          {k: (v[0], "/".join(v[2])) for k, v in r["norm"].items()}), REPLAY_SH)
     return out
 
 
@@ -477,7 +487,7 @@ def size_programs(tier, plain, probe, work):
             progs.append(("str", "str_%d" % t, gen_strings(t - c0), {"dim": "strings", "target": t}))
     # one long literal
     for L in [0, 1, 255, 256, 257, 65535, 65536, 65537] + ([1 << 20, (1 << 20) + 1] if tier != "quick" else []):
-        progs.append(("len", "len_%d" % L, gen_longstring(L), {"dim": "maxstr", "target": L}))
+        progs.append(("len", "len_%d" % L, gen_longstring(L), {"dim": "maxstr", "target": L} if L > 8 else {"dim": "maxstr"}))   # "__init__" is longer
     # code bytes
     targets = pow2_around(15, 17) + (pow2_around(20, 20) if tier != "quick" else [])
     for shape, what in (("bigmain", "code"), ("split", "entry_off"), ("loop", "code")):
@@ -495,67 +505,7 @@ def size_programs(tier, plain, probe, work):
     return progs
 
 
-def run(tier):
-    rep = common.Report("C10", tier)
-    rep.set_deadline(170 if tier == "quick" else 1700)
-    tree = common.build_tree("asan")
-    plain = common.build_tree("plain")      # wrapper binaries are built by the plain toolchain, as a user would
-    probe = tree.build_probe(os.path.join(common.VERIF, "vf/probes/nvm_probe.c"), "nvm_probe")
-    sprobe = tree.build_probe(os.path.join(common.VERIF, "vf/probes/c10_probe.c"), "c10_probe")
-    # the same probe without the sanitizer: only reads table sizes back from files (can be 65537 strings)
-    iprobe = plain.build_probe(os.path.join(common.VERIF, "vf/probes/c10_probe.c"), "c10_probe")
-    work = os.path.join(common.scratch(), "c10")
-    os.makedirs(work, exist_ok=True)
-
-    # ---------------- (b) structural product and (c1) API-built size boundaries: two single-threaded probe runs,
-    # started now and collected after the process pool below has done the compiler-side families
-    bg = {}
-
-    def _bg(key, cmd, timeout):
-        bg[key] = common.run(cmd, timeout=timeout)
-    threads = [threading.Thread(target=_bg, args=("c10b", [probe, "c10b"], 1800)),
-               threading.Thread(target=_bg, args=("sizes", [sprobe, "sizes", tier], 3000))]
-    for t in threads:
-        t.start()
-
-    # ---------------- (a) compiler-produced modules
-    srcs = corpus.hand_programs() + sorted(glob.glob(os.path.join(common.VERIF, "vf/corpus_vm/*.nano")))
-    srcs.append(gen_many(os.path.join(work, "g_many.nano")))
-    # batches of enumerated programs (every layer of the shared enumerator) as further compiler-produced modules
-    from .. import langrun
-    from . import langcommon
-    for layer in ("layer_S", "layer_F", "layer_D", "layer_A", "layer_E", "op_matrix", "effect_order"):
-        cases = langcommon.all_cases("quick", [layer])
-        nb = 2 if tier == "quick" else 12
-        for k in range(nb):
-            part = cases[k * 40:(k + 1) * 40] if layer == "layer_A" else cases[k * 100:(k + 1) * 100]
-            if not part:
-                break
-            pth = os.path.join(work, "e_%s_%d.nano" % (layer, k))
-            with open(pth, "w") as f:
-                f.write(langrun.source_of(part))
-            srcs.append(pth)
-    jobs = [(plain.root, plain.exe("nano_vm"), plain.exe("nano_virt"), s, work) for s in srcs]
-    results = common.pmap(_observe, jobs)
-    nvms = []
-    for r in results:
-        name = os.path.basename(r["src"])
-        if r["emit"][0] != 0 or "file" not in r:
-            if name.startswith("e_layer") or name.startswith("e_op") or name.startswith("e_eff"):
-                rep.count("enumerator_batches_refused_by_front_end")     # a batch holding a case of C02's known finding
-                continue
-            raise common.HarnessError("corpus program %s does not compile: %s" % (name, r["emit"][2][-500:]))
-        # exit statuses are compared modulo 256 (what a process can report)
-        norm = three_ways(r)
-        rep.count("traces_validated_against_impl", len(norm))
-        rep.count("transitions", len(norm))
-        sig = disagreement(norm)
-        if sig:
-            rep.violation("c10a:" + name, {"program.nano": open(r["src"]).read(), "observations.txt": describe(norm)},
-                          "%s: run / file / wrapper disagree: %s (%s)" % (name, {k: v[0] for k, v in norm.items()}, sig), REPLAY_SH)
-        nvms.append(r["nvm"])
-        rep.sample({"program": name, "exit": norm["--run"][0], "stdout_bytes": len(norm["--run"][1])})
-
+def do_sizes(rep, tier, plain, iprobe, work):
     # ---------------- (c2) generated size-boundary programs through the real compiler
     sp = size_programs(tier, plain, iprobe, work)
     size_results = []
@@ -583,7 +533,6 @@ def run(tier):
     rep.coverage["size_programs_accepted"] = len(ok)
     rep.coverage["size_targets_missed"] = len(missed)
     rep.coverage["size_targets_missed_list"] = "; ".join("%s: %s=%d wanted %d" % (n, d, got, t) for n, d, t, got in missed[:12])
-    nvms += [r["nvm"] for r in ok]
     # vacuity: the boundaries this family exists for were really reached on this tree
     need = {"functions": (1, 2, 256, 257, 512, 513), "strings": (256, 257, 4096, 4097), "maxstr": (255, 256, 65535, 65536),
             "imports": (1, 32, 33, 256)}
@@ -604,6 +553,10 @@ def run(tier):
         rep.sample({"size_program": r["name"], "tables": {k: r["info"][k] for k in ("strings", "functions", "code", "imports", "maxstr")} if "info" in r else None,
                     "exit": r["norm"]["--run"][0]}, cap=14)
 
+    return [r["nvm"] for r in ok], len(ok)
+
+
+def do_traps(rep, tier, plain, work):
     # ---------------- (d) runtime errors: exit status, output and stderr class three ways
     kinds, wheres, stacks, outs = trap_alphabet(tier)
     tp = []
@@ -648,6 +601,107 @@ def run(tier):
         rep.sample({"trap_program": r["name"], "exit": r["norm"]["--run"][0], "stderr_class": "/".join(r["norm"]["--run"][2]),
                     "stdout_bytes": len(r["norm"]["--run"][1])}, cap=22)
 
+    return len(tok), (kinds, wheres, stacks, outs)
+
+
+def run(tier):
+    bg = {}
+    try:
+        return _run(tier, bg)
+    finally:
+        for pr, _fo, _fe in bg.values():     # background probes still running after an early exit
+            if pr.poll() is None:
+                try:
+                    os.killpg(pr.pid, 9)
+                except ProcessLookupError:
+                    pass
+                pr.wait()
+
+
+def _run(tier, bg):
+    rep = common.Report("C10", tier)
+    rep.set_deadline(170 if tier == "quick" else 1700)
+    tree = common.build_tree("asan")
+    plain = common.build_tree("plain")      # wrapper binaries are built by the plain toolchain, as a user would
+    probe = tree.build_probe(os.path.join(common.VERIF, "vf/probes/nvm_probe.c"), "nvm_probe")
+    sprobe = tree.build_probe(os.path.join(common.VERIF, "vf/probes/c10_probe.c"), "c10_probe")
+    # the same probe without the sanitizer: only reads table sizes back from files (can be 65537 strings)
+    iprobe = plain.build_probe(os.path.join(common.VERIF, "vf/probes/c10_probe.c"), "c10_probe")
+    work = os.path.join(common.scratch(), "c10")
+    os.makedirs(work, exist_ok=True)
+
+    # ---------------- (b) structural product and (c1) API-built size boundaries: two single-threaded probe runs,
+    # started now and collected after the process pool below has done the compiler-side families
+    # (no threads: the process pool forks, and a fork while another thread holds a lock hangs the child)
+    import subprocess
+    for key, cmd in (("c10b", [probe, "c10b"]), ("sizes", [sprobe, "sizes", tier])):
+        fo = open(os.path.join(work, key + ".stdout"), "wb")
+        fe = open(os.path.join(work, key + ".stderr"), "wb")
+        bg[key] = (subprocess.Popen(cmd, stdin=subprocess.DEVNULL, stdout=fo, stderr=fe, env=common.env(), start_new_session=True), fo, fe)
+
+    def collect(key, timeout):
+        pr, fo, fe = bg[key]
+        try:
+            rc = pr.wait(timeout=timeout)
+        except subprocess.TimeoutExpired:
+            try:
+                os.killpg(pr.pid, 9)
+            except ProcessLookupError:
+                pass
+            pr.wait()
+            raise common.HarnessError("background probe %s did not finish" % key)
+        fo.close()
+        fe.close()
+        return rc, open(fo.name, "rb").read(), open(fe.name, "rb").read()
+
+    # ---------------- (a) compiler-produced modules
+    srcs = corpus.hand_programs() + sorted(glob.glob(os.path.join(common.VERIF, "vf/corpus_vm/*.nano")))
+    srcs.append(gen_many(os.path.join(work, "g_many.nano")))
+    # batches of enumerated programs (every layer of the shared enumerator) as further compiler-produced modules
+    from .. import langrun
+    from . import langcommon
+    for layer in ("layer_S", "layer_F", "layer_D", "layer_A", "layer_E", "op_matrix", "effect_order"):
+        cases = langcommon.all_cases("quick", [layer])
+        nb = 2 if tier == "quick" else 12
+        for k in range(nb):
+            part = cases[k * 40:(k + 1) * 40] if layer == "layer_A" else cases[k * 100:(k + 1) * 100]
+            if not part:
+                break
+            pth = os.path.join(work, "e_%s_%d.nano" % (layer, k))
+            with open(pth, "w") as f:
+                f.write(langrun.source_of(part))
+            srcs.append(pth)
+    jobs = [(plain.root, plain.exe("nano_vm"), plain.exe("nano_virt"), s, work) for s in srcs]
+    results = common.pmap(_observe, jobs)
+    nvms = []
+    for r in results:
+        name = os.path.basename(r["src"])
+        if r["emit"][0] != 0 or "file" not in r:
+            if name.startswith("e_layer") or name.startswith("e_op") or name.startswith("e_eff"):
+                rep.count("enumerator_batches_refused_by_front_end")     # a batch holding a case of C02's known finding
+                continue
+            raise common.HarnessError("corpus program %s does not compile: %s" % (name, r["emit"][2][-500:]))
+        # exit statuses are compared modulo 256 (what a process can report)
+        norm = three_ways(r)
+        rep.count("traces_validated_against_impl", len(norm))
+        rep.count("transitions", len(norm))
+        sig = disagreement(norm)
+        if sig:
+            rep.violation("c10a:" + name, {"program.nano": open(r["src"]).read(), "observations.txt": describe(norm)},
+                          "%s: run / file / wrapper disagree: %s (%s)" % (name, {k: v[0] for k, v in norm.items()}, sig), REPLAY_SH)
+        nvms.append(r["nvm"])
+        rep.sample({"program": name, "exit": norm["--run"][0], "stdout_bytes": len(norm["--run"][1])})
+
+    # ---------------- (c2) and (d): generated programs (skipped, with exhaustive=false, when the time budget is spent)
+    n_size = n_trap = 0
+    alphabet = trap_alphabet(tier)
+    if not rep.out_of_time():
+        more, n_size = do_sizes(rep, tier, plain, iprobe, work)
+        nvms += more
+    if not rep.out_of_time():
+        n_trap, alphabet = do_traps(rep, tier, plain, work)
+    kinds, wheres, stacks, outs = alphabet
+
     # ---------------- file round trip of every compiler-produced module
     rmods, _sk = corpus.repo_modules(tree, os.path.join(work, "rmods"))
     allm = nvms + [m for _s, m in rmods]
@@ -670,12 +724,10 @@ def run(tier):
     rep.count("states", len(allm))
     rep.count("transitions", len(allm) * 3)
     rep.coverage["compiler_modules_roundtripped"] = len(allm)
-    rep.coverage["programs_run_three_ways"] = len(srcs) + len(ok) + len(tok)
+    rep.coverage["programs_run_three_ways"] = len(srcs) + n_size + n_trap
 
     # ---------------- collect (b) and (c1)
-    for t in threads:
-        t.join()
-    rc, out, err = bg["c10b"]
+    rc, out, err = collect("c10b", 1800)
     out = out.decode(errors="replace")
     stat = [l for l in out.splitlines() if l.startswith("STAT")]
     if rc != 0 or not stat:
@@ -696,7 +748,7 @@ def run(tier):
     rep.coverage["api_built_modules"] = nmods
     rep.sample({"api_module": "strings=['a',''] functions=[profile 2 (arity 0x1234, offset 0x12345678, ...)] imports=[3 params] debug=2 code=4097 flags=5 entry=0xFFFFFFFF"})
 
-    rc, out, err = bg["sizes"]
+    rc, out, err = collect("sizes", 3000)
     out = out.decode(errors="replace")
     stat = [l for l in out.splitlines() if l.startswith("STAT")]
     nsz = 0
@@ -731,7 +783,7 @@ def run(tier):
         "size boundaries through the API: every table over {0} u {2^k-1,2^k,2^k+1} (bounds per tier in the docstring) at two base settings of the others + full product of a reduced list; function/import/debug records carry index-dependent field values",
         "size boundaries through the compiler: the compiler accepts at most 512 user functions (513/514 table entries with __init__ / synthetic main), 256 externs and emits no debug entries - larger function / import / debug tables exist only in the API-built part; code sizes are hit exactly by calibrating two statement sizes on the tree under test",
         "runtime errors: product %d kinds x %d places x %d frame states x %d output prefixes (combinations of a pending operand with a statement-only error form do not exist); errors reachable from source programs only (no hostile modules: C13)" % (len(kinds), len(wheres), len(stacks), len(outs)),
-        "a disagreement is reported only after the program, re-run alone twice with 10x time limits, shows the same disagreement both times",
+        "a disagreement among generated programs is reported only after a program of its signature group, re-run alone twice (10x time limits after a timeout), shows the same disagreement both times",
     ]
     if nmods and nmods < 1000:
         raise common.HarnessError("vacuous structural product")
